@@ -121,6 +121,10 @@ func (se *SpecEnv) resolveType(s string) (types.Type, string) {
 	}
 	if i := strings.LastIndex(s, "."); i >= 0 {
 		pn, name := s[:i], s[i+1:]
+		if se.c.eng.db.Sorts[name] {
+			se.c.reg.AddDecl("sort:"+name, "(declare-sort "+name+" 0)")
+			return nil, name
+		}
 		if p := se.c.eng.findPkgByName(se.pkg, pn); p != nil {
 			if o := p.Scope().Lookup(name); o != nil {
 				return o.Type(), se.c.reg.SortOf(o.Type())
@@ -334,9 +338,6 @@ func (se *SpecEnv) evalBinary(x *EBinary) T {
 			se.fail("sort mismatch in %s: %s vs %s", x, l.So, r.So)
 		}
 		eq := "(= " + l.S + " " + r.S + ")"
-		if l.So == "F64" {
-			eq = "(f64_eq " + l.S + " " + r.S + ")"
-		}
 		if x.Op == "!=" {
 			eq = not(eq)
 		}
@@ -520,6 +521,28 @@ func (se *SpecEnv) findGhost(b T, f string) (*GhostField, string) {
 	for _, cnd := range cands {
 		if g, ok := se.c.eng.ghostByType[cnd+"."+f]; ok {
 			return g, cnd + "." + f
+		}
+	}
+	// interface types: a ghost field declared on interface I applies to every interface type that includes I's methods
+	if iu, ok := b.Ty.Underlying().(*types.Interface); ok {
+		var keys []string
+		for k := range se.c.eng.ghostByType {
+			if strings.HasSuffix(k, "."+f) {
+				keys = append(keys, k)
+			}
+		}
+		sortStrings(keys)
+		for _, k := range keys {
+			g := se.c.eng.ghostByType[k]
+			ot := se.c.eng.ghostOwnerType[k]
+			if ot == nil {
+				continue
+			}
+			if oi, ok := ot.Underlying().(*types.Interface); ok {
+				if types.Implements(iu, oi) || implementsIface(iu, oi) {
+					return g, k
+				}
+			}
 		}
 	}
 	// any ghost declared for the sort
@@ -711,7 +734,7 @@ func (se *SpecEnv) evalLoc(e Expr) []Loc {
 					_, so := se.resolveTypeIn(g.Pkg, g.Sort)
 					se.c.memSorts[mk] = "(Array " + b.So + " " + so + ")"
 					se.c.eng.ghostOwnerSort[mk] = b.So
-					return []Loc{{Kind: "ghost", Key: mk, Idx: b.S, Text: e.String()}}
+					return []Loc{{Kind: "ghost", Key: mk, Idx: b.S, OwnerSort: b.So, Text: e.String()}}
 				}
 			}
 		}
@@ -813,7 +836,10 @@ func (se *SpecEnv) evalCall(x *ECall) T {
 		if _, isPtr := ty.Underlying().(*types.Pointer); isPtr {
 			return T{S: "(ipay " + v.S + ")", So: "Addr", Ty: ty}
 		}
-		return T{S: se.c.loadWith(se.memOf, "(ipay "+v.S+")", ty), So: se.c.reg.SortOf(ty), Ty: ty}
+		return T{S: se.c.loadWith(se.c.boxMem, "(ipay "+v.S+")", ty), So: se.c.reg.SortOf(ty), Ty: ty}
+	case "boxedslice":
+		v := arg(0)
+		return T{S: "(select " + se.c.boxMem("M:Slice") + " (ipay " + v.S + "))", So: "Slice"}
 	case "root":
 		v := arg(0)
 		a := v.S
@@ -846,10 +872,14 @@ func (se *SpecEnv) evalCall(x *ECall) T {
 		se.inOld = saved
 		return T{S: "(= " + cur.S + " " + o.S + ")", So: "Bool"}
 	}
-	if p, ok := se.c.eng.db.Preds[x.Fn]; ok {
+	short := x.Fn
+	if i := strings.LastIndex(short, "."); i >= 0 {
+		short = short[i+1:]
+	}
+	if p, ok := se.c.eng.db.Preds[short]; ok {
 		return se.callPred(p, x.Args)
 	}
-	if pf, ok := se.c.eng.db.Pures[x.Fn]; ok {
+	if pf, ok := se.c.eng.db.Pures[short]; ok {
 		var args []T
 		for i := range x.Args {
 			args = append(args, arg(i))
@@ -920,4 +950,15 @@ func (se *SpecEnv) callPure(pf *PureFunc, args []T) T {
 		as = append(as, a.S)
 	}
 	return T{S: "(" + fn + " " + strings.Join(as, " ") + ")", So: rso, Ty: rty}
+}
+
+func implementsIface(sub, super *types.Interface) bool {
+	for i := 0; i < super.NumMethods(); i++ {
+		m := super.Method(i)
+		obj, _, _ := types.LookupFieldOrMethod(sub, false, m.Pkg(), m.Name())
+		if obj == nil {
+			return false
+		}
+	}
+	return super.NumMethods() > 0
 }
